@@ -102,9 +102,13 @@ func (p *Provider) start(ctx context.Context, ammoFile afero.File) error {
 	return nil
 }
 
+// ammoJSON keeps the numbers of a payload as they are written: an int64 field may hold
+// a value that a float64 cannot represent.
+var ammoJSON = jsoniter.Config{EscapeHTML: true, UseNumber: true}.Froze()
+
 func decodeAmmo(jsonDoc []byte, am *ammo.Ammo) (*ammo.Ammo, error) {
 	var ammo ammo.Ammo
-	err := jsoniter.Unmarshal(jsonDoc, &ammo)
+	err := ammoJSON.Unmarshal(jsonDoc, &ammo)
 	if err != nil {
 		return am, errors.WithStack(err)
 	}
